@@ -95,7 +95,8 @@ class RedisTransportSink(ClientMessageSink):
       try:
         if deadline:
           timeout = deadline - time.time()
-          if timeout < 0:
+          # The timeout sink fails the call as soon as now >= deadline.
+          if timeout <= 0:
             raise gevent.Timeout()
           gtimeout = gevent.Timeout.start_new(timeout)
         else:
